@@ -5,7 +5,7 @@ Export ListNotations.
 Fixpoint list_eqb {A} (e : A -> A -> bool) (l1 l2 : list A) : bool :=
   match l1, l2 with
   | [], [] => true
-  | a :: l1', b :: l2' => e a b && list_eqb e l1' l2'
+  | a :: l1', b :: l2' => if e a b then list_eqb e l1' l2' else false
   | _, _ => false
   end.
 
@@ -15,8 +15,8 @@ Lemma list_eqb_eq {A} (e : A -> A -> bool) :
 Proof.
   intros He l1; induction l1 as [|a l1 IH]; intros [|b l2]; simpl; split; intro H;
     try reflexivity; try discriminate.
-  - apply andb_true_iff in H as [H1 H2]. apply He in H1. apply IH in H2. congruence.
-  - inversion H; subst. apply andb_true_iff; split; [apply He; reflexivity | apply IH; reflexivity].
+  - destruct (e a b) eqn:E; [|discriminate]. apply He in E. apply IH in H. congruence.
+  - inversion H; subst. replace (e b b) with true by (symmetry; apply He; reflexivity). apply IH; reflexivity.
 Qed.
 
 Definition memN (x : N) (l : list N) : bool := existsb (N.eqb x) l.
